@@ -27,16 +27,23 @@ namespace SigModel.ShapesFederation
 /-- The local server keeps running: the read loop neither panics nor blocks forever. -/
 def Safe (c : Ctx) : Prop := c.fault = none
 
+/-- What the statement allows a step to do beyond talking to the remote server. -/
+structure Perm where
+  /-- the remote hello is complete: messages of the remote server may be forwarded -/
+  fwd : Bool
+  /-- the frame being processed is a "bye" of the remote server -/
+  bye : Bool
+
 /-- What a step may do: everything is addressed to the federated session itself (its own
-connection) or to the remote server.  Messages of the remote server are forwarded, and the
-session can be ended by them, only once the remote hello is complete (`helloDone`). -/
-def Eff.contained (helloDone : Bool) : Eff → Bool
-  | .toLocal .forwarded _ => helloDone
+connection) or to the remote server.  Messages of the remote server are forwarded only once the
+remote hello is complete, and the session itself is ended only by a forwarded "bye". -/
+def Eff.contained (p : Perm) : Eff → Bool
+  | .toLocal .forwarded _ => p.fwd
   | .toLocal _ _ => true      -- an error answering the join request / a federation state event
   | .toPeer _ => true         -- a message to the remote server
   | .connClosed => true       -- leaving the remote server
   | .reconnected => true
-  | .sessionClosed => helloDone   -- only by a forwarded "bye" (C12_session_closed_only_by_bye)
+  | .sessionClosed => p.fwd && p.bye
 
 /-! ### Which regenerated facts make the model safe
 
@@ -57,11 +64,20 @@ def Facts.requiresEntries (F : Facts) (target type f : String) : Bool :=
 covered by the validation tables? -/
 def Facts.covers (F : Facts) : String × String × String × String → Bool
   | (t, target, type, path) =>
-    if path = "Event" then F.requires t "Event" && t = "event"
+    let ev (f : String) : Bool := t = "event" && F.requiresEv target type f
+    if path = "Event" then t = "event" && F.requires t "Event"
     else if path = "Event.Join[]" then t = "event" && F.requiresEntries target type "Join"
     else if path = "Event.Change[]" then t = "event" && F.requiresEntries target type "Change"
-    else if Proto.hasPrefix "Event." path then t = "event" && F.requiresEv target type (Proto.dropS 6 path)
-    else F.requires t path
+    else if path = "Event.Update" then ev "Update"
+    else if path = "Event.Flags" then ev "Flags"
+    else if path = "Event.Message" then ev "Message"
+    else if path = "Event.Invite" then ev "Invite"
+    else if path = "Event.Disinvite" then ev "Disinvite"
+    else if path = "Event.SwitchTo" then ev "SwitchTo"
+    else if path = "Welcome" || path = "Error" || path = "Hello" || path = "Room" || path = "Message" ||
+        path = "Control" || path = "Bye" || path = "TransientData" || path = "Internal" || path = "Dialout" then
+      F.requires t path
+    else false
 
 /-- The dereferences the model knows (its `crash` branches). -/
 def modelDerefs : List (String × String × String × String) :=
@@ -79,24 +95,27 @@ def modelDerefs : List (String × String × String × String) :=
    ("event", "roomlist", "disinvite", "Event"), ("event", "roomlist", "disinvite", "Event.Disinvite"),
    ("event", "roomlist", "update", "Event"), ("event", "roomlist", "update", "Event.Update")]
 
-/-- The decidable condition on the regenerated facts under which the theorems hold. -/
-def Facts.sound (F : Facts) : Bool :=
-  -- every sub-object the handlers dereference is guaranteed by the validation in front of them
-  F.requires F.preHelloWelcomeType "Welcome" && F.requires "error" "Error" && F.requires "hello" "Hello" &&
-  F.requires "control" "Control" && F.requires "message" "Message" && F.requires "room" "Room" &&
-  F.requires "event" "Event" &&
-  F.requiresEv "participants" "update" "Update" && F.requiresEv "participants" "flags" "Flags" &&
-  F.requiresEv "participants" "message" "Message" && F.requiresEv "room" "message" "Message" &&
-  F.requiresEv "roomlist" "invite" "Invite" && F.requiresEv "roomlist" "disinvite" "Disinvite" &&
-  F.requiresEv "roomlist" "update" "Update" && F.requiresEntries "room" "join" "Join" &&
-  -- no unchecked type assertion in filterMessage
-  F.filterUncheckedAsserts == 0 &&
-  -- the mutexes of the hello path are three different ones
-  F.deferMessageLock != F.helloLock && F.deferMessageLock != F.sendLock && F.helloLock != F.sendLock &&
-  -- closeConnection looks at c.conn again after the bye; undecodable frames are skipped
-  F.closeRechecksConn && F.readPumpSkipsUndecodable &&
-  -- the Go handlers dereference nothing the model does not know about, and all of it is covered
-  F.derefs.all (fun d => modelDerefs.contains d) && F.derefs.all F.covers
+/-- The conditions on the regenerated facts under which the theorems hold. -/
+def Facts.soundList (F : Facts) : List Bool :=
+  [ -- every sub-object the handlers dereference is guaranteed by the validation in front of them
+    F.requires F.preHelloWelcomeType "Welcome", F.requires "error" "Error", F.requires "hello" "Hello",
+    F.requires "control" "Control", F.requires "message" "Message", F.requires "room" "Room",
+    F.requires "event" "Event",
+    F.requiresEv "participants" "update" "Update", F.requiresEv "participants" "flags" "Flags",
+    F.requiresEv "participants" "message" "Message", F.requiresEv "room" "message" "Message",
+    F.requiresEv "roomlist" "invite" "Invite", F.requiresEv "roomlist" "disinvite" "Disinvite",
+    F.requiresEv "roomlist" "update" "Update", F.requiresEntries "room" "join" "Join",
+    -- no unchecked type assertion in filterMessage
+    F.filterUncheckedAsserts == 0,
+    -- the mutexes of the hello path are three different ones
+    F.deferMessageLock != F.helloLock, F.deferMessageLock != F.sendLock, F.helloLock != F.sendLock,
+    -- closeConnection looks at c.conn again after the bye; undecodable frames are skipped
+    F.closeRechecksConn, F.readPumpSkipsUndecodable,
+    -- the Go handlers dereference nothing the model does not know about, and all of it is covered
+    F.derefs.all (fun d => modelDerefs.contains d), F.derefs.all F.covers ]
+
+/-- Decidable; re-evaluated on the regenerated facts on every run (`C12_generated_sound`). -/
+def Facts.sound (F : Facts) : Bool := F.soundList.all id
 
 def isInfix (p s : List Char) : Bool :=
   match s with
@@ -113,7 +132,7 @@ def bystanderField (toks : List String) : Option String :=
 def judge (opKind : String) (impl : List String) : String :=
   let line := Proto.joinToks impl
   if impl.isEmpty then "na"
-  else if Proto.hasPrefix "fail:" line || line = "bad-op" || line = "no-conn" then "na"
+  else if Proto.hasPrefix "fail:" line || line = "bad-op" || line = "no-conn" || line = "session-gone" then "na"
   else if containsStr line "deadlock" then "violated:stall:federation-client-deadlocked"
   else if containsStr line "stuck" then "violated:stall:no-progress"
   else if containsStr line "stalled" then "violated:stall:hub-blocked"
